@@ -858,6 +858,13 @@ func (w *WAL) Save(st raftpb.HardState, ents []raftpb.Entry) error {
 		return nil
 	}
 
+	if mustSync && fsync && w.optimizedFsync {
+		// in optimized fsync mode cut() only flushes the old segment, but a changed term or
+		// vote has to be durable when Save returns
+		if err := w.sync(true); err != nil {
+			return err
+		}
+	}
 	return w.cut()
 }
 
